@@ -78,6 +78,7 @@ def _conversation(flavour):
             # summary for the API functions (A-DC): a conforming DC returns, for GetKey(sd, rkid, l0, l1, l2), an envelope that is a
             # valid seed for the triple covering the request (seed-key reply) or a public-key envelope (public-key reply)
             args = {k: c.param(k) for k in ("server", "target_sd", "root_key_id", "l0", "l1", "l2", "username", "password", "auth_protocol")}
+            c.ctx.event("dc_contact", how="get_key")  # from here on the process is talking to the network (C05's third outcome)
             for e in sorted(ERRS):
                 c.raises(e, when=None)
             e = c.fresh(envelope(), "dc_reply")
@@ -189,8 +190,9 @@ def _blob_unpack_summary(c):
 
 def _decrypt_summary(c):
     blob, key = c.param("blob"), c.param("key")
-    for e in ("ValueError", "NotImplementedError", "OverflowError", "cryptography.exceptions.InvalidTag", "cryptography.hazmat.primitives.keywrap.InvalidUnwrap", "dpapi_ng._asn1:NotEnougData"):
+    for e in ("ValueError", "NotImplementedError", "cryptography.exceptions.InvalidTag", "cryptography.hazmat.primitives.keywrap.InvalidUnwrap", "dpapi_ng._asn1:NotEnougData"):
         c.raises(e, when=None)
+    c.ghost_bound("kdf_calls", 65)
     out = c.fresh(T.Bytes, "plaintext")
     c.effect(lambda: c.ctx.event("decrypt", blob=blob, key=key, result=out))
     c.returns(out)
@@ -198,7 +200,7 @@ def _decrypt_summary(c):
 
 def _encrypt_summary(c):
     data, key, pd = c.param("blob"), c.param("key"), c.param("protection_descriptor")
-    for e in ("ValueError", "NotImplementedError", "OverflowError"):
+    for e in ("ValueError", "NotImplementedError", "OverflowError"):  # OverflowError: compute_public_key on a DC key with a short key_length field
         c.raises(e, when=None)
     out = c.fresh(T.Bytes, "dpapi_ng_blob")
     c.effect(lambda: c.ctx.event("encrypt", data=data, key=key, descriptor=pd, result=out))
@@ -208,6 +210,7 @@ def _encrypt_summary(c):
 def _lookup_summary(flavour):
     def f(c):
         dom = c.param("domain_name")
+        c.ctx.event("dc_contact", how="lookup_dc")  # from here on the process is talking to the network (C05's third outcome)
         c.raises("dns.exception.DNSException", when=None)
         rec = SObj(c.I.P.find_class("SrvRecord"), {"target": c.fresh(T.Str, "dc_name"), "port": fresh_int("p"), "weight": fresh_int("w"), "priority": fresh_int("pr")})
         c.effect(lambda: c.ctx.event("lookup_dc", flavour=flavour, domain=dom, record=rec))
@@ -339,12 +342,23 @@ def _api(kind, flavour):
             return conj
 
         c.ensures("key-selection-rpc-discipline-and-result-routing", api_post)
+        if kind == "unprotect":
+            # C05: on untrusted bytes the call returns, or starts talking to a domain controller, or raises a deliberate error;
+            # and the key-derivation work is bounded (2 for the L1 seed from a root key, 65 for the KEK)
+            DELIBERATE = ("ValueError", "NotImplementedError", "NotEnougData", "InvalidTag", "InvalidUnwrap")
+
+            def deliberate(exc):
+                contacted = any(k == "dc_contact" for k, _ in c.ctx.trace)
+                return contacted or any(exc.isinstance_of(a) or exc.type_name.split(":")[-1].split(".")[-1] == a for a in DELIBERATE)
+
+            c.post_exc("only-deliberate-errors-before-any-network-contact", deliberate)
+            c.ghost_bound("kdf_calls", 67)
 
     return spec
 
 
-REG.contract("dpapi_ng._client.ncrypt_unprotect_secret", props=["C17", "C10", "C04", "C01"])(_api("unprotect", "sync"))
-REG.contract("dpapi_ng._client.async_ncrypt_unprotect_secret", props=["C17", "C10", "C04", "C01"])(_api("unprotect", "async"))
+REG.contract("dpapi_ng._client.ncrypt_unprotect_secret", props=["C17", "C10", "C04", "C01", "C05"])(_api("unprotect", "sync"))
+REG.contract("dpapi_ng._client.async_ncrypt_unprotect_secret", props=["C17", "C10", "C04", "C01", "C05"])(_api("unprotect", "async"))
 REG.contract("dpapi_ng._client.ncrypt_protect_secret", props=["C17", "C10", "C01"])(_api("protect", "sync"))
 REG.contract("dpapi_ng._client.async_ncrypt_protect_secret", props=["C17", "C10", "C01"])(_api("protect", "async"))
 
